@@ -87,11 +87,19 @@ def flat(xss):
     """concatenation of the chunks ([E for x in S for y in T])"""
     COUNTS["comp"] += 1
     if isinstance(xss, SymSeq):
+        if isinstance(xss.elem, tuple):
+            xss.elem = list(xss.elem)
         if not isinstance(xss.elem, list):
             raise Unsupported("nested comprehension whose inner part is not a concrete-length list")
         xss.flatten = True
         return xss
-    return [y for ys in xss for y in ys]
+    out = []
+    for ys in xss:
+        if isinstance(ys, SymSeq):
+            out.append(Splice(ys))      # all elements of that chunk, in order, at this position
+        else:
+            out.extend(ys)
+    return out
 
 
 # ---- T3
@@ -166,7 +174,38 @@ def for_app(target, f, xs, method="append"):
 
 
 # ---- T1 (general form)
-def for_each(xs, body, loop_id):
+def assert_(cond, msg):
+    """an `assert C, M` folded into an expression"""
+    if not cond:
+        m = msg()
+        raise AssertionError(m) if m is not None else AssertionError()
+    return None
+
+
+_NOCAUSE = object()
+
+
+def raise_(exc, cause=_NOCAUSE):
+    """a `raise E [from C]` folded into an expression"""
+    if cause is _NOCAUSE:
+        raise exc
+    raise exc from cause
+
+
+_HAVOC = [0]
+
+
+def havoc(name, old):
+    """value of a loop accumulator before a generic iteration / after a loop over a symbolic sequence: an unknown integer"""
+    if isinstance(old, bool) or not isinstance(old, int):
+        raise Unsupported(f"accumulator {name} of type {type(old).__name__} updated in a loop over a symbolic sequence")
+    import z3
+    _HAVOC[0] += 1
+    return SymInt(z3.Int(f"acc!{name}!{_HAVOC[0]}"), f"acc({name})")
+
+
+def for_each(xs, body, loop_id, accs=False):
+    """returns True when the loop ran over a symbolic sequence (the caller then havocs the accumulators)"""
     COUNTS["for_app"] += 1
     if isinstance(xs, SymSeq):
         COUNTS["symbolic"] += 1
@@ -176,13 +215,17 @@ def for_each(xs, body, loop_id):
             raise Unsupported(f"loop {loop_id} over a symbolic sequence has no loop contract")
         # inductive step: establish Inv(k) for a generic k, run the body on element k, check Inv(k+1)
         lc.establish(xs, "k")
-        body(xs.elem)
+        if accs:
+            body(xs.elem, True)
+        else:
+            body(xs.elem)
         lc.check(xs, "k+1")
         # exit: continue after the loop with Inv(len)
         lc.establish(xs, "len")
-        return
+        return True
     for x in xs:
         body(x)
+    return False
 
 
 # ---- T1 (search form)
@@ -199,6 +242,11 @@ class SymEnum:
 
     def __init__(self, seq, start=0):
         self.seq, self.start = seq, start
+
+    def _unsup(self, *a, **k):
+        raise Unsupported("native iteration over enumerate() of a symbolic sequence")
+
+    __iter__ = __next__ = __len__ = __getitem__ = _unsup
 
 
 def search(xs, cond, value):
@@ -234,8 +282,182 @@ def search(xs, cond, value):
 
 
 # ---- builtins on proxies
+def _native_marked(x) -> bool:
+    """a native str (not a proxy class) that carries marker characters: the product of an f-string / concatenation of proxies"""
+    if type(x) is not str:
+        return False
+    from .markers import is_marker_char
+    return any(is_marker_char(c) for c in x)
+
+
+# str methods whose answer on a native string WITH markers is computed on the literal text only; exact when the opaque parts are
+# atoms that cannot contribute: the argument is literal text made of characters no opaque name may contain (the contracts'
+# precondition on names: no separator, no regex metacharacter, no blank)
+_NAME_FREE = set(",|()[]{}?*+\\^$\t\n ")
+
+
+def _literal_edges(text):
+    """(literal prefix, literal suffix) of native text with markers"""
+    from .markers import is_marker_char
+    t = str.__str__(text)
+    i = 0
+    while i < len(t) and not is_marker_char(t[i]):
+        i += 1
+    j = len(t)
+    while j > 0 and not is_marker_char(t[j - 1]):
+        j -= 1
+    return t[:i], t[j:]
+
+
+def _toks(x):
+    return ctx().table.tokens(str.__str__(x))
+
+
+def _edge_test(obj, name, arg):
+    """startswith / endswith of native marked text, decided token by token (a marker equals itself only; two aligned literal
+    characters that differ decide False); None = not decided"""
+    if type(arg) is tuple:
+        rs = [_edge_test(obj, name, a_) for a_ in arg]
+        if any(r is True for r in rs):
+            return True
+        if all(r is False for r in rs):
+            return False
+        return None
+    if not isinstance(arg, str) or (type(arg) is not str and not hasattr(arg, "ident")):
+        return None
+    to, ta = _toks(obj), _toks(arg)
+    if name == "endswith":
+        to, ta = to[::-1], ta[::-1]
+    for i, a_ in enumerate(ta):
+        if i >= len(to):
+            return None
+        o_ = to[i]
+        if isinstance(a_, str) and isinstance(o_, str):
+            if a_ != o_:
+                return False
+        elif a_ is o_:
+            continue
+        else:
+            return None
+    return True
+
+
+def _sub_test(obj, arg):
+    """`arg in obj` for native marked text: True when the token sequence of arg occurs in obj"""
+    to, ta = _toks(obj), _toks(arg)
+    n = len(ta)
+    if n == 0:
+        return True
+    same = lambda x, y: (x == y) if isinstance(x, str) and isinstance(y, str) else (x is y)
+    for i in range(len(to) - n + 1):
+        if all(same(to[i + j], ta[j]) for j in range(n)):
+            return True
+    return None
+
+
+def meth(obj, name):
+    """T5: obj.name for a method name that str has"""
+    if _native_marked(obj):
+        def guarded(*a, **k):
+            lits = [x for x in a if isinstance(x, str)]
+            if name in ("startswith", "endswith") and len(a) == 1 and not k:
+                r = _edge_test(obj, name, a[0])
+                if r is not None:
+                    return r
+            if name in ("replace", "split", "rsplit", "partition", "rpartition", "count") and lits \
+                    and type(lits[0]) is str and lits[0] and not _native_marked(lits[0]) and set(lits[0]) <= _NAME_FREE \
+                    and all(type(x) is str and not _native_marked(x) for x in lits[1:]):
+                # the needle consists of characters that no opaque name contains: every occurrence lies in the literal text
+                return getattr(str, name)(obj, *a, **k)
+            raise Unsupported(f"str.{name} on native text with opaque symbolic parts")
+        return guarded
+    return getattr(obj, name)
+
+
+def contains(container, item):
+    """T5: `item in container`"""
+    if _native_marked(container):
+        if type(item) is str and item and not _native_marked(item) and set(item) <= _NAME_FREE:
+            return str.__contains__(container, item)
+        if isinstance(item, str) and (type(item) is str or hasattr(item, "ident")) and _sub_test(container, item):
+            return True
+        raise Unsupported("`in` on native text with opaque symbolic parts")
+    if type(container) is str and (_native_marked(item) or (isinstance(item, str) and type(item) is not str)):
+        raise Unsupported("text with symbolic parts as the needle of `in`")
+    return item in container
+
+
+def is_bool(x, const):
+    """T5: `x is True` / `x is False`"""
+    if isinstance(x, SymBool):
+        return x == const
+    return x is const
+
+
+def contains_ab(item, container):
+    return contains(container, item)
+
+
+def _marked_len(x):
+    """len() of native text with markers: the literal characters plus one unknown per symbolic part"""
+    import z3
+    total = z3.IntVal(0)
+    for t in ctx().table.tokens(x):
+        if isinstance(t, str):
+            total = total + 1
+        else:
+            v = z3.Int(f"len!{t.kind}:{t.ident}")
+            lo = 1 if t.kind == "name" else 0
+            if t.kind == "var":
+                from . import sstr as _s
+                lo = 0 if _s._nullable(_s._mast(t)) else 1
+            pyvc.assume(v >= lo)
+            total = total + v
+    return SymInt(z3.simplify(total), "len(text)")
+
+
+def _guard_native_marked(x, what):
+    if _native_marked(x):
+        raise Unsupported(f"{what} of native text with opaque symbolic parts")
+    if type(x) in (list, tuple) and any(_native_marked(e) or _is_sym(e) for e in x):
+        raise Unsupported(f"{what} over values with symbolic parts")
+
+
+def b_sorted(xs, **k):
+    _guard_native_marked(xs if type(xs) in (list, tuple) else builtins.list(xs) if not _is_sym(xs) else [xs], "sorted()")
+    if _is_sym(xs):
+        raise Unsupported("sorted() of a symbolic sequence")
+    return builtins.sorted(xs, **k)
+
+
+def _text_sym(x) -> bool:
+    return _native_marked(x) or (isinstance(x, str) and (hasattr(x, "segs") or isinstance(x, Name))) or isinstance(x, (SymSeq, SymPerms))
+
+
+def _minmax(what, fn, a, k):
+    # symbolic integers compare through their own (forking) operators; text with symbolic parts has no order
+    for x in a:
+        if _text_sym(x) or (type(x) in (list, tuple) and any(_text_sym(e) for e in x)):
+            raise Unsupported(f"{what}() over text with symbolic parts")
+    return fn(*a, **k)
+
+
+def b_min(*a, **k):
+    return _minmax("min", builtins.min, a, k)
+
+
+def b_max(*a, **k):
+    return _minmax("max", builtins.max, a, k)
+
+
 def b_len(x):
     COUNTS["builtin"] += 1
+    if hasattr(type(x), "sym_len") and not isinstance(x, str):
+        COUNTS["symbolic"] += 1
+        return x.sym_len()
+    if _native_marked(x):
+        COUNTS["symbolic"] += 1
+        return _marked_len(x)
     if isinstance(x, SymSeq):
         return SymInt(__import__("z3").Int("len!" + x.root))
     if type(x) is list and any(isinstance(e, Splice) for e in x):
@@ -250,6 +472,7 @@ def b_len(x):
         return SymInt(t)
     if _is_sym(x):
         if hasattr(x, "sym_len"):
+            COUNTS["symbolic"] += 1
             return x.sym_len()
         raise Unsupported(f"len of {type(x).__name__}")
     return builtins.len(x)
@@ -262,6 +485,24 @@ def b_list(x=()):
     if _is_sym(x):
         raise Unsupported(f"list() of {type(x).__name__}")
     return builtins.list(x)
+
+
+def b_map(f, *its):
+    COUNTS["builtin"] += 1
+    if len(its) == 1 and isinstance(its[0], (SymSeq, SymPerms)):
+        return comp(f, its[0], kind="gen")
+    if any(_is_sym(x) for x in its):
+        raise Unsupported("map over several / unmodelled symbolic iterables")
+    return builtins.map(f, *its)
+
+
+def b_filter(pred, xs):
+    COUNTS["builtin"] += 1
+    if isinstance(xs, SymSeq):
+        return comp(lambda x: x, xs, (lambda x: builtins.bool(x)) if pred is None else pred, kind="gen")
+    if _is_sym(xs):
+        raise Unsupported("filter over an unmodelled symbolic iterable")
+    return builtins.filter(pred, xs)
 
 
 def b_str(x=""):
@@ -291,6 +532,8 @@ def b_int(x=0, base=None):
         raise Unsupported("int() of an opaque name")
     if hasattr(x, "sym_int"):
         return x.sym_int(base)
+    if _native_marked(x):
+        raise Unsupported("int() of native text with opaque symbolic parts")
     if base is None:
         return builtins.int(x)
     return builtins.int(x, base)
@@ -343,14 +586,49 @@ def deepcopy(x, memo=None):
     return _copy.deepcopy(x, memo) if memo is not None else _copy.deepcopy(x)
 
 
-# ---- re shim (symre plugs in here)
+# ---- re / regex shims (symre plugs in here)
+def _has_markers(x) -> bool:
+    """x is (or contains) text with symbolic parts: a structured string, an opaque name, or a native string that carries marker
+    characters (the result of a native concatenation / f-string of proxies)"""
+    from .markers import is_marker_char
+    if isinstance(x, str):
+        if hasattr(x, "segs") or (type(x) is not str and hasattr(x, "ident")):
+            return True
+        return any(is_marker_char(c) for c in str.__str__(x))
+    if isinstance(x, (list, tuple)):
+        return any(_has_markers(y) for y in x)
+    return isinstance(x, (SymSeq,))
+
+
+def _guarded(name, fn):
+    def guarded(*a, **k):
+        if any(_has_markers(x) for x in a) or any(_has_markers(x) for x in k.values()):
+            raise Unsupported(f"{name} on text with symbolic parts is not modelled")
+        return fn(*a, **k)
+    guarded.__name__ = getattr(fn, "__name__", "guarded")
+    return guarded
+
+
 class _Re:
+    """the `re` module as the instrumented code sees it (every import form is redirected here): match / search / split / fullmatch
+    on structured strings go to symre, every other function refuses text with symbolic parts"""
+    _native = _re
+    _modname = "re"
+
     def __getattr__(self, name):
-        return getattr(_re, name)
+        attr = getattr(self._native, name)
+        if callable(attr) and not isinstance(attr, type):
+            return _guarded(f"{self._modname}.{name}", attr)
+        return attr
 
     @staticmethod
     def _sym(s):
-        return hasattr(s, "segs")
+        if hasattr(s, "segs"):
+            return True
+        if _has_markers(s):
+            # an opaque name, or native text carrying markers: the native engine would match against the marker payload
+            raise Unsupported(f"regular expression applied to text with opaque symbolic parts ({getattr(s, 'ident', 'native concatenation')})")
+        return False
 
     def match(self, pattern, string, flags=0):
         if self._sym(string):
@@ -377,6 +655,8 @@ class _Re:
         return _re.fullmatch(pattern, string, flags)
 
     def compile(self, pattern, flags=0):
+        if _has_markers(pattern):
+            raise Unsupported("re.compile of a pattern with symbolic parts")
         return _Compiled(self, pattern, flags)
 
 
@@ -402,12 +682,46 @@ class _Compiled:
     def __getattr__(self, name):
         attr = getattr(self._real, name)
         if callable(attr):
-            def guarded(*a, **k):
-                if any(_Re._sym(x) for x in a):
-                    raise Unsupported(f"compiled pattern .{name} on a structured string")
-                return attr(*a, **k)
-            return guarded
+            return _guarded(f"compiled pattern .{name}", attr)
+        return attr
+
+
+class _RegexCompiled:
+    def __init__(self, real):
+        self._real = real
+
+    def __getattr__(self, name):
+        attr = getattr(self._real, name)
+        if callable(attr):
+            return _guarded(f"compiled regex pattern .{name}", attr)
+        return attr
+
+
+class _Regex:
+    """the third-party `regex` module as the instrumented code sees it: native on concrete text, Unsupported on text with symbolic
+    parts (the contracts that reach the engine call install their own stub for the module)"""
+
+    def __init__(self):
+        try:
+            import regex as _regex
+        except Exception:  # noqa
+            _regex = None
+        self._native = _regex
+
+    def __getattr__(self, name):
+        if self._native is None:
+            raise AttributeError(name)
+        attr = getattr(self._native, name)
+        if name == "compile":
+            def compile_(*a, **k):
+                if any(_has_markers(x) for x in a):
+                    raise Unsupported("regex.compile of a pattern with symbolic parts")
+                return _RegexCompiled(attr(*a, **k))
+            return compile_
+        if callable(attr) and not isinstance(attr, type):
+            return _guarded(f"regex.{name}", attr)
         return attr
 
 
 re = _Re()
+regex = _Regex()
